@@ -33,6 +33,7 @@ import (
 	"github.com/semihalev/sdns/middleware"
 	"github.com/semihalev/sdns/middleware/cache"
 	"github.com/semihalev/sdns/middleware/edns"
+	"github.com/semihalev/sdns/middleware/recovery"
 	"github.com/semihalev/sdns/server"
 )
 
@@ -133,12 +134,90 @@ func (s *scripted) ServeDNS(ctx context.Context, ch *middleware.Chain) {
 		return
 	}
 	s.seen = req
+	if s.r.mode == 'p' {
+		panic("c06: scripted handler panic")
+	}
 	up := buildUpstream(s.r, req)
 	if up != nil {
 		s.lensBad = checkLens(s.q, s.r, up)
 		_ = ch.Writer.WriteMsg(up)
 	}
 	ch.Cancel()
+}
+
+// wireScripted stands where the cache's byte path is: it hands the writer
+// chain a packed body (no OPT) and the reply facts, through WireReady /
+// WriteWire, exactly as a cache hit does.
+type wireScripted struct {
+	bodyLen int
+	r       aR
+	q       aQ
+	out     string
+	lensBad string
+}
+
+func (s *wireScripted) Name() string { return "wirescripted" }
+func (s *wireScripted) ServeDNS(ctx context.Context, ch *middleware.Chain) {
+	_, req := ch.Materialize(ctx)
+	if req == nil {
+		return
+	}
+	defer ch.Cancel()
+	up := buildUpstream(s.r, req)
+	info := middleware.WireInfo{Rcode: up.Rcode, AuthenticatedData: up.AuthenticatedData}
+	edeLen := 0
+	var extra []dns.RR
+	for _, rr := range up.Extra {
+		if o, ok := rr.(*dns.OPT); ok {
+			for _, x := range optOptions(o) {
+				if x.code == optEDE && len(x.data) >= 2 && !info.HasEDE {
+					info.HasEDE, info.EDECode, info.EDEText = true, uint16(x.data[0])<<8|uint16(x.data[1]), string(x.data[2:])
+					edeLen = 4 + len(x.data)
+				}
+			}
+			continue
+		}
+		extra = append(extra, rr)
+	}
+	up.Extra = extra
+	for _, sec := range [][]dns.RR{up.Answer, up.Ns} {
+		for _, rr := range sec {
+			switch rr.Header().Rrtype {
+			case dns.TypeRRSIG, dns.TypeNSEC, dns.TypeNSEC3:
+				info.HasDNSSEC = req.Question[0].Qtype != dns.TypeRRSIG
+			}
+		}
+	}
+	up.Compress = true
+	packed, err := up.Pack()
+	if err != nil {
+		s.out = "packerr"
+		return
+	}
+	if len(packed) != s.bodyLen {
+		s.lensBad = fmt.Sprintf("bad-lens packed line=%d real=%d", s.bodyLen, len(packed))
+		return
+	}
+	ww, ok := ch.Writer.(middleware.WireWriter)
+	if !ok {
+		s.out = "nowirewriter"
+		return
+	}
+	cp, ready := ww.WireReady()
+	if !ready {
+		s.out = "notready"
+		return
+	}
+	s.out = fmt.Sprintf("ready do=%s reserve=%d max=%d", vlib.B(cp.DO), cp.Reserve, cp.MaxSize)
+	body := make([]byte, len(packed), len(packed)+cp.Reserve+edeLen)
+	copy(body, packed)
+	if err := ww.WriteWire(body, info); err != nil {
+		if err == middleware.ErrWireFallback {
+			s.out += " fallback"
+		} else {
+			s.out += " error"
+		}
+	}
 }
 
 // checkLens: the lengths written on the op line are the lengths the real
@@ -202,6 +281,8 @@ func ruleTags(q aQ, r aR, proto string, reply *dns.Msg) string {
 	case q.opt.present && q.opt.ver != 0:
 		t = append(t, "r-badvers")
 	case r.mode == 'n':
+	case r.mode == 'p':
+		t = append(t, "r-panic-servfail")
 	default:
 		if sigs && !(q.opt.present && q.opt.do) {
 			if q.qtype == int(dns.TypeRRSIG) {
@@ -315,7 +396,8 @@ func exec(op string) vlib.Res {
 		}
 		w := newCapW(proto)
 		st := &scripted{r: r, q: q}
-		ch := middleware.NewChain([]middleware.Handler{curEDNS, st})
+		// the real recovery middleware stands in front, as in the default chain
+		ch := middleware.NewChain([]middleware.Handler{recovery.New(curCfg.config()), curEDNS, st})
 		var rq middleware.Request
 		wire := false
 		if path == "w" && rq.ParseWire(raw, time.Now(), nil) {
@@ -357,6 +439,96 @@ func exec(op string) vlib.Res {
 		}
 		return vlib.Res{Impl: impl, Oracle: or, Tags: tags}
 
+	case "edns wirewrite":
+		path, proto := f[2], f[3]
+		q, r := parseQ(f[5]), parseR(f[6])
+		raw := rawQuery(q)
+		orig := new(dns.Msg)
+		if err := orig.Unpack(raw); err != nil {
+			return vlib.Res{Impl: "undecodable"}
+		}
+		w := newCapW(proto)
+		st := &wireScripted{r: r, q: q, bodyLen: vlib.Atoi(f[4])}
+		ch := middleware.NewChain([]middleware.Handler{curEDNS, st})
+		var rq middleware.Request
+		if path == "w" && rq.ParseWire(raw, time.Now(), nil) {
+			ch.ResetWire(w, &rq)
+		} else {
+			req := new(dns.Msg)
+			_ = req.Unpack(raw)
+			ch.Reset(w, req)
+		}
+		ch.AllowDirectPack() // the owned listeners declare their sockets raw byte sinks
+		ch.Next(context.Background())
+		ch.Finish()
+		if st.lensBad != "" {
+			return vlib.Res{Impl: st.lensBad}
+		}
+		impl := st.out
+		or := "-"
+		tags := "nt,wirewrite"
+		if w.raw != nil {
+			impl += " " + curCfg.ctx().absReply(w.msg, orig)
+			or = judgeHinted("edns/wirewrite-"+proto, entryKind{proto: proto}, curCfg.deploy(), raw, w.raw, r)
+			tags += ",wire-written"
+		} else if strings.HasSuffix(impl, "fallback") {
+			tags += ",wire-fallback"
+		}
+		return vlib.Res{Impl: impl, Oracle: or, Tags: tags}
+
+	case "edns cachewire":
+		do := f[2] == "t"
+		q, r := parseQ(f[3]), parseR(f[4])
+		req := new(dns.Msg)
+		if err := req.Unpack(rawQuery(q)); err != nil {
+			return vlib.Res{Impl: "undecodable"}
+		}
+		up := buildUpstream(r, req)
+		e := cache.NewCacheEntry(up, 60*time.Second, 0)
+		if e == nil {
+			return vlib.Res{Impl: "nocache", Oracle: "-"}
+		}
+		_, has, _, stripped := cache.VerifC06WireFlags(e)
+		impl := fmt.Sprintf("has=%s stripped=%s", vlib.B(has), vlib.B(stripped))
+		body, info, ok := cache.VerifC06ServeWire(e, req, 0, do)
+		or := "ok"
+		if !ok {
+			impl += " none"
+		} else {
+			m := new(dns.Msg)
+			if err := m.Unpack(body); err != nil {
+				return vlib.Res{Impl: impl + " badbody", Oracle: fail("cachewire/body-undecodable", err.Error())}
+			}
+			ede := "-"
+			if info.HasEDE {
+				ede = vlib.Hex(append([]byte{byte(info.EDECode >> 8), byte(info.EDECode)}, info.EDEText...))
+			}
+			impl += fmt.Sprintf(" info rc=%d ad=%s dnssec=%s ede=%s body %s", info.Rcode, vlib.B(info.AuthenticatedData), vlib.B(info.HasDNSSEC), ede, curCfg.ctx().absReply(m, req))
+			// oracle: the contract the edns layer relies on, and the header echo
+			carries := false
+			for _, sec := range [][]dns.RR{m.Answer, m.Ns} {
+				for _, rr := range sec {
+					switch rr.Header().Rrtype {
+					case dns.TypeRRSIG, dns.TypeNSEC, dns.TypeNSEC3:
+						carries = true
+					}
+				}
+			}
+			switch {
+			case !do && carries && !info.HasDNSSEC && q.qtype != int(dns.TypeRRSIG):
+				or = fail("cachewire/dnssec/unflagged-body-for-do0", "")
+			case m.Id != uint16(q.id) || !m.Response || m.Opcode != q.opcode || len(m.Question) != 1 || m.Question[0] != req.Question[0]:
+				or = fail("cachewire/echo", "")
+			case m.AuthenticatedData != info.AuthenticatedData:
+				or = fail("cachewire/info-ad-differs", "")
+			case m.AuthenticatedData && q.cd:
+				or = fail("cachewire/ad/set-cd", "")
+			case m.IsEdns0() != nil:
+				or = fail("cachewire/body-carries-opt", "")
+			}
+		}
+		return vlib.Res{Impl: impl, Oracle: or, Tags: "nt,cachewire"}
+
 	case "edns tomsg":
 		q, r := parseQ(f[2]), parseR(f[3])
 		raw := rawQuery(q)
@@ -390,6 +562,43 @@ func exec(op string) vlib.Res {
 			or = fail("tomsg/opt/unsolicited", "")
 		}
 		return vlib.Res{Impl: impl, Oracle: or, Tags: "nt,tomsg"}
+
+	case "edns parsewire":
+		raw := vlib.UnHex(f[2])
+		var rq middleware.Request
+		okw := rq.ParseWire(raw, time.Now(), nil)
+		m := new(dns.Msg)
+		derr := m.Unpack(raw)
+		if !okw {
+			return vlib.Res{Impl: "no", Oracle: "ok", Tags: "nt,parsewire-refused"}
+		}
+		optS := "-"
+		if rq.HasOPT() {
+			optS = fmt.Sprintf("%d/%s/%d", rq.UDPSize(), vlib.B(rq.DO()), rq.EDNSVersion())
+		}
+		impl := fmt.Sprintf("ok id=%d op=%d rd=%s ad=%s cd=%s qt=%d qc=%d nl=%d opt=%s ecs=%s nsid=%s ka=%s cookie=%s",
+			rq.ID(), rq.Opcode(), vlib.B(rq.RD()), vlib.B(rq.AD()), vlib.B(rq.CD()), rq.Qtype(), rq.Qclass(), len(rq.WireName()),
+			optS, vlib.B(rq.HasECS()), vlib.B(rq.HasNSID()), vlib.B(rq.HasTCPKeepalive()), vlib.Hex(rq.CookieEcho()))
+		// oracle: a packet served without decoding must be one the library decodes,
+		// and the facts read off the bytes must be the decoded ones
+		or := "ok"
+		switch {
+		case derr != nil:
+			or = fail("parsewire/admitted-undecodable", derr.Error())
+		case len(m.Question) != 1 || m.Response || m.Opcode != 0:
+			or = fail("parsewire/admitted-non-query", "")
+		case m.Id != rq.ID() || m.Question[0].Qtype != rq.Qtype() || m.RecursionDesired != rq.RD() ||
+			m.CheckingDisabled != rq.CD() || m.AuthenticatedData != rq.AD():
+			or = fail("parsewire/facts-differ/header", "")
+		default:
+			o := m.IsEdns0()
+			if (o != nil) != rq.HasOPT() {
+				or = fail("parsewire/facts-differ/opt-presence", "")
+			} else if o != nil && (o.UDPSize() != rq.UDPSize() || o.Do() != rq.DO() || o.Version() != rq.EDNSVersion()) {
+				or = fail("parsewire/facts-differ/opt", "")
+			}
+		}
+		return vlib.Res{Impl: impl, Oracle: or, Tags: "nt,parsewire-admitted"}
 
 	case "accept hdr":
 		fl, qd, an, ns, ar := vlib.Atoi(f[2]), vlib.Atoi(f[3]), vlib.Atoi(f[4]), vlib.Atoi(f[5]), vlib.Atoi(f[6])
